@@ -181,6 +181,14 @@ func pipeWorld(r *R) {
 			ctx := recvCtxs[i]
 			c := cs.Begin("receiver", "Next", i, ctx)
 			// probe: is the receiver arriving with both data and sender-closed ready?
+			if closeCall != nil && closeCall.Returned {
+				for val, sc := range sendCalls {
+					if _, got := received[val]; !got && sc.Returned && sc.Err == nil && sc.OK && sc.Ret < closeCall.Inv {
+						r.Probe("next-with-data-and-closed-both-ready")
+						break
+					}
+				}
+			}
 			v, err := recv.Next(ctx.C)
 			cs.End(c, v, err == nil, err)
 			switch {
@@ -226,7 +234,6 @@ func pipeWorld(r *R) {
 					for val, sc := range sendCalls {
 						if sc.Returned && sc.Err == nil && sc.OK && sc.Ret < closeCall.Inv {
 							if _, ok := received[val]; !ok {
-								r.Probe("next-with-data-and-closed-both-ready")
 								r.Violate("C10", "lost-before-close/"+bufClass, "the receiver was told %v (call %v) although value %d, whose %s returned success (#%d) before Close was invoked (#%d), has not been delivered", err, c, val, sc.Kind, sc.Ret, closeCall.Inv)
 							}
 						}
